@@ -129,8 +129,8 @@ Proof. exact bump_fresh. Qed.
 (** a history on two workers: carving of a page for a small class, a block freed by another
     worker than the one that allocated it, reuse from that worker's list *)
 Example C12_history_example :
-  match hrun bump_mmap [OAlloc 0 100; OAlloc 0 100; OFree 1 100 128; OAlloc 1 128; OAlloc 0 5000]%Z h_init with
-  | Some h => h_live h = [(4096, 13); (128, 7); (0, 7)]%Z /\ length (fl_lists (h_fl h)) = 30
+  match hrun bump_mmap [OAlloc 0 100; OAlloc 0 100; OFree 1 100 3968; OAlloc 1 128; OAlloc 0 5000]%Z h_init with
+  | Some h => h_live h = [(4096, 13); (3968, 7); (0, 7)]%Z /\ length (fl_lists (h_fl h)) = 30
   | None => False
   end.
 Proof. vm_compute. split; reflexivity. Qed.
